@@ -5,6 +5,8 @@ import (
 	"fmt"
 	"math"
 	"os"
+	"regexp"
+	"strconv"
 	"strings"
 
 	"github.com/tdewolff/canvas"
@@ -362,7 +364,12 @@ func checkStroke(c strokeCase, r *fw.R) {
 	case nIn == 0:
 		r.Outcome("only-outside-decidable(w/2<=tol+delta)")
 	}
-	for _, class := range []string{"stroke-misses-segment", "stroke-misses-segment-beyond-butt-cut", "stroke-misses-join", "stroke-misses-cap", "stroke-exceeds"} {
+	if b := bads["stroke-misses-segment-beyond-butt-cut"]; b != nil {
+		// the statement exempts points beyond the cut of a butt cap; tallied, not a violation
+		r.Outcome("exempt:misses-points-beyond-a-butt-cut-that-lie-in-another-segment's-band/" + kind + "-" + c.sh.class)
+		delete(bads, "stroke-misses-segment-beyond-butt-cut")
+	}
+	for _, class := range []string{"stroke-misses-segment", "stroke-misses-join", "stroke-misses-cap", "stroke-exceeds"} {
 		if b := bads[class]; b != nil {
 			viol(r, class+"/"+kind+"-"+c.sh.class, fmt.Sprintf("%d of %d decided probes wrong (expected %s); first: %s; w/2=%g margin=%g; result=%s", b.n, nIn+nOut,
 				map[bool]string{true: "outside", false: "inside"}[class == "stroke-exceeds"], b.first, hw, mg, oracle.Fmt(rd)))
@@ -587,7 +594,103 @@ func Prop() *fw.Property {
 			"arcs joins next to a curved segment: only the weak outside bound is checked",
 			"coordinates on the 4x4 integer lattice; curves only from the menu; widths, limits and tolerances only from the menus; probes are a finite sample of the plane (grid step = extent/13.7 plus feature probes)",
 		},
-		Families: families,
+		KnownPredicates: knownPredicates(),
+		Families:        families,
 	}
 }
 
+// ---------------------------------------------------------------------------------------------
+// predicates for known_findings.json: all computed from the case (input) alone
+
+var caseRe = regexp.MustCompile(`^path=(.*?) (Stroke|Offset)\((?:w=)?(-?[0-9.]+)`)
+
+func parseCase(c string) (sps []oracle.Subpath, w float64, ok bool) {
+	m := caseRe.FindStringSubmatch(c)
+	if m == nil {
+		return nil, 0, false
+	}
+	p, err := canvas.ParseSVGPath(m[1])
+	if err != nil {
+		return nil, 0, false
+	}
+	sps, err = oracle.Decode(p.Data())
+	if err != nil {
+		return nil, 0, false
+	}
+	w, _ = strconv.ParseFloat(m[3], 64)
+	return sps, w, true
+}
+
+// minCurvatureRadius: smallest circumradius of consecutive sample triples on curved segments.
+func minCurvatureRadius(sps []oracle.Subpath) float64 {
+	best := math.Inf(1)
+	for _, sp := range sps {
+		for _, s := range sp.Segs {
+			if s.Kind == oracle.CmdLine || s.Kind == oracle.CmdClose {
+				continue
+			}
+			pts := s.Sample(400)
+			for i := 1; i+1 < len(pts); i++ {
+				a, b, c := pts[i-1], pts[i], pts[i+1]
+				area2 := math.Abs(oracle.Orient(a, b, c))
+				if area2 < 1e-15 {
+					continue
+				}
+				rad := a.Dist(b) * b.Dist(c) * c.Dist(a) / (2 * area2)
+				best = math.Min(best, rad)
+			}
+		}
+	}
+	return best
+}
+
+// inradiusBelow: no interior point of the closed polygon is farther than h from its boundary.
+func inradiusBelow(sps []oracle.Subpath, h float64) bool {
+	pls := oracle.Dense(sps, 64)
+	lo, hi, ok := oracle.BBox(pls)
+	if !ok {
+		return false
+	}
+	for y := lo.Y; y <= hi.Y; y += 0.02 {
+		for x := lo.X; x <= hi.X; x += 0.02 {
+			q := oracle.Pt{X: x, Y: y}
+			if oracle.Winding(pls, q) != 0 && oracle.Dist(pls, q, true) >= h {
+				return false
+			}
+		}
+	}
+	return true
+}
+
+func knownPredicates() map[string]func(*fw.Violation) bool {
+	return map[string]func(*fw.Violation) bool{
+		// S3: the half width exceeds the inradius of a closed simple contour (inner side vanishes)
+		"closed-contour-narrower-than-half-width": func(v *fw.Violation) bool {
+			sps, w, ok := parseCase(v.Case)
+			return ok && strings.Contains(v.Case, "[simple]") && len(sps) == 1 && sps[0].Closed && inradiusBelow(sps, w/2)
+		},
+		// residual of S2: closed contours that touch themselves (a vertex on another edge, overlapping edges)
+		"closed-self-touching": func(v *fw.Violation) bool {
+			sps, _, ok := parseCase(v.Case)
+			return ok && strings.Contains(v.Case, "[self-touching]") && len(sps) == 1 && sps[0].Closed
+		},
+		// S5/S6: the half width exceeds the smallest radius of curvature of the path (the offset curve has cusps)
+		"curvature-radius-below-half-width": func(v *fw.Violation) bool {
+			sps, w, ok := parseCase(v.Case)
+			return ok && strings.Contains(v.Case, "Stroke(") && minCurvatureRadius(sps) < w/2
+		},
+		// S4: Offset of a clockwise contour made of arcs only: CCW() misreports the orientation
+		"clockwise-all-arc-contour": func(v *fw.Violation) bool {
+			sps, _, ok := parseCase(v.Case)
+			if !ok || len(sps) != 1 || !sps[0].Closed {
+				return false
+			}
+			for _, s := range sps[0].Segs {
+				if s.Kind != oracle.CmdArc && s.Kind != oracle.CmdClose {
+					return false
+				}
+			}
+			return oracle.Area(oracle.Dense(sps, 64)) < 0
+		},
+	}
+}
